@@ -10,6 +10,7 @@ let modes : (string * (string -> string)) list = [
   "conc", Mode_conc.check_line;
   "clnt", Mode_clnt.check_line;
   "ufstree", Mode_ufstree.check_line;
+  "fidref", Mode_fidref.check_line;
 ]
 
 let () =
@@ -22,6 +23,7 @@ let () =
        if String.length l > 0 && l.[0] <> '#' then begin
          let v = try f l with
            | Failure m -> "HARNESSERROR " ^ m
+           | Invalid_argument m -> "HARNESSERROR invalid argument " ^ m
            | Stack_overflow -> "HARNESSERROR stack overflow"
            | Not_found -> "HARNESSERROR not found" in
          print_endline v
